@@ -130,6 +130,7 @@ func (w *World) ApplyAPI(call string) error {
 			if err := os.WriteFile(w.SnapDir, nil, 0o644); err != nil {
 				return err
 			}
+			w.SnapGone = true
 		case "snapdir-back":
 			if err := os.Remove(w.SnapDir); err != nil {
 				return err
@@ -137,6 +138,7 @@ func (w *World) ApplyAPI(call string) error {
 			if err := os.Rename(w.SnapDir+".away", w.SnapDir); err != nil {
 				return err
 			}
+			w.SnapGone = false
 		default:
 			return fmt.Errorf("unknown fault %q", arg)
 		}
